@@ -925,12 +925,12 @@ pub fn triangulate_polygon_set(
     }
     let mut triag_list = vec![];
     loop {
+        #[cfg(cavint_verif)]
+        VERIF_ACTIVE_TRACE.with(|t| t.borrow_mut().push(y_struct.active_edges.len()));
         if y_struct.ordered_points.is_empty() {
             break;
         } else {
-            handle_next(&mut y_struct, &mut triag_list)?;
-            #[cfg(cavint_verif)]
-            VERIF_ACTIVE_TRACE.with(|t| t.borrow_mut().push(y_struct.active_edges.len()));
+            handle_next(&mut y_struct, &mut triag_list)?
         }
     }
     Ok(triag_list)
@@ -938,7 +938,8 @@ pub fn triangulate_polygon_set(
 
 #[cfg(cavint_verif)]
 thread_local! {
-    /// Verification hook (compiled only with `--cfg cavint_verif`): the number of active edges after
-    /// every successfully handled event of the last `triangulate_polygon_set` call on this thread.
+    /// Verification hook (compiled only with `--cfg cavint_verif`): the number of active edges at the
+    /// start of every pass of the event loop (so: before the first event and after every successfully
+    /// handled one) of the last `triangulate_polygon_set` call on this thread.
     pub static VERIF_ACTIVE_TRACE: RefCell<Vec<usize>> = RefCell::new(Vec::new());
 }
